@@ -279,9 +279,12 @@ class C13:
                                    "error on line %d of %s (after its nested include returned) reported as %r\nfile %r" % (e_line, en, dg[-1], bad_text))
             if fail is None and case.get("fail_repeat"):
                 bad = [k for k in hist if t[k]["rc"] != 1 or not unhex_diag(t[k])]
+                misplaced = [k for k in hist if fk == "missing" and unhex_diag(t[k]) and unhex_diag(t[k])[-1][:2] != ("[buf]", 1)]
                 if bad:
                     e = t[bad[0]]
                     fail = Failure("failing-include-not-reported/%s" % fk, "include of %s: rc %d diag %r" % (target, e["rc"], unhex_diag(e)))
+                elif misplaced:
+                    fail = Failure("missing-include-misreported", "include of a missing file on line 1 of the buffer reported as %r" % (unhex_diag(t[misplaced[0]])[-1],))
                 elif t[idd]["rc"] != 0 or values_only(t[dd]["tree"]) != values_only(t[db]["tree"]):
                     fail = Failure("after-failures/%s" % fk, "after %d failing includes (%s) the split text gives rc %d %r; fresh context gave rc %d" % (
                         case["fail_repeat"], fk, t[idd]["rc"], unhex_diag(t[idd]), t[ib]["rc"]))
